@@ -500,11 +500,8 @@ func (m *Machine) callFunction(caller *frame, fn *ssa.Function, args []Value, en
 	// a library whose objects are engine models must not be entered through an
 	// unmodelled method: its real body would run on the placeholder struct and
 	// silently do nothing
-	if m.initing == 0 && fn.Signature.Recv() != nil && fn.Pkg != nil && fn.Pkg.Pkg.Path() == "github.com/gorilla/mux" {
-		rt := fn.Signature.Recv().Type().String()
-		if strings.HasSuffix(rt, "mux.Router") || strings.HasSuffix(rt, "mux.Route") {
-			m.unsupported("gorilla/mux method %s is not part of the router model", name)
-		}
+	if m.initing == 0 && fn.Signature.Recv() != nil && modelledReceivers[strings.TrimPrefix(fn.Signature.Recv().Type().String(), "*")] {
+		m.unsupported("method %s of an object that is an engine model is not part of that model", name)
 	}
 	if fn.Pkg != nil { // Build is once-guarded and waits for a build in progress on another worker
 		fn.Pkg.Build()
@@ -521,6 +518,23 @@ func (m *Machine) callFunction(caller *frame, fn *ssa.Function, args []Value, en
 		return m.callIsolated(caller, fn, args, env, name)
 	}
 	return m.callSSA(caller, fn, args, env)
+}
+
+// modelledReceivers: types whose values are placeholders for engine models. A
+// method of theirs that has no native implementation must not run from its SSA.
+var modelledReceivers = map[string]bool{
+	"github.com/gorilla/mux.Router":            true,
+	"github.com/gorilla/mux.Route":             true,
+	"encoding/json.Decoder":                    true,
+	"encoding/json.Encoder":                    true,
+	"github.com/ugorji/go/codec.Encoder":       true,
+	"github.com/ugorji/go/codec.Decoder":       true,
+	"time.Timer":                               true,
+	"time.Ticker":                              true,
+	"os.File":                                  true,
+	"bufio.Scanner":                            true,
+	"github.com/libp2p/go-libp2p-gorpc.Client": true,
+	"github.com/rs/cors.Cors":                  true,
 }
 
 func (m *Machine) callIsolated(caller *frame, fn *ssa.Function, args []Value, env []Value, name string) (res Value) {
